@@ -87,6 +87,18 @@ def session(sess, suite, n, t, kind):
         a2 = sess.call("rand_aggregate %s msg=%s comms=%s shares=%s pkp=%s mode=%s r=%s" % (suite, msg, comms, shares_str(z2), pkp, mode, rand), CLASS, "rand_aggregate-cheater")
         sess.oracle((a2.err, a2.culprits()) == want, "cheater under randomization: expected %s, got %s" % (want, a2.raw), rp())
         sess.case("cheat|%s|%s|%s|%s" % (suite, mode, comms, seed))
+    # several cheaters: all-cheaters mode must name exactly all of them, first-cheater the lowest
+    if len(signers) >= 3:
+        chs = sorted(rng.sample(signers, rng.randrange(2, len(signers) + 1)), key=lambda h: fld.dec(h))
+        z3 = dict(zs)
+        for cidx in chs:
+            z3[cidx] = fld.enc(fld.dec(zs[cidx]) + 2 + rng.randrange(50))
+        tot = sum(fld.dec(z3[i]) - fld.dec(zs[i]) for i in signers) % fld.q
+        if tot != 0:
+            for mode, want in (("all", ("InvalidSignatureShare", chs)), ("first", ("InvalidSignatureShare", chs[:1])), ("disabled", ("InvalidSignature", []))):
+                a2 = sess.call("rand_aggregate %s msg=%s comms=%s shares=%s pkp=%s mode=%s r=%s" % (suite, msg, comms, shares_str(z3), pkp, mode, rand), CLASS, "rand_aggregate-cheaters")
+                sess.oracle((a2.err, a2.culprits()) == want, "several cheaters under randomization (%s): expected %s, got %s" % (mode, want, a2.raw), rp())
+                sess.case("cheats|%s|%s|%s|%s" % (suite, mode, comms, ",".join(chs)))
     # threshold enforcement unchanged
     if len(signers) > 1 and t >= 2:
         few = signers[:t - 1]
@@ -118,13 +130,13 @@ def generate(sess):
     rng = sess.rng
     thorough = sess.tier != "quick"
     for suite in TOY_SUITES:
-        for n in range(2, 7 if thorough else 5):
+        for n in range(2, 7 if thorough else 6):
             for t in range(2, n + 1):
                 for _ in range(3 if thorough else 1):
                     session(sess, suite, n, t, rng.choice(ID_KINDS))
     for rep in range(4 if thorough else 1):
         for suite in REAL_SUITES:
-            for (n, t) in ([(2, 2), (3, 2), (5, 3)] if thorough else [(3, 2)]):
+            for (n, t) in ([(2, 2), (3, 2), (5, 3)] if thorough else [(4, 2)]):
                 session(sess, suite, n, t, rng.choice(ID_KINDS))
 
 
